@@ -18,6 +18,10 @@ Function tags 0 x  1 ln x  2 log10 x  3 log2 x  4 e^x  5 10^x  6 2^x  7 1/x  8 x
               10 sqrt x  11 x^(1/3)
 
 Fails closed: any shape outside this grammar raises TieBroken.
+
+The arithmetic / bit EXPRESSIONS of the same source (masks, shifts, sign extension, the
+conversion formulas and their inverse) are translated by harness/translate/sdrexpr.py into
+Gen/SdrExpr.lean (C16) and Gen/SensorExpr.lean (C17).
 """
 import ast
 import os
